@@ -149,6 +149,7 @@ package oauth2
 //@   ensures [C02.success-needs-live-code] err == nil ==> old(code_exists[sig]) && old(code_active[sig])
 //@   ensures [C02.grant-overrides-request] err == nil ==> request.GetID() == rid && sameset(request.GetRequestedScopes(), old(code_req[sig]).GetRequestedScopes()) && sameset(request.GetRequestedAudience(), old(code_req[sig]).GetRequestedAudience()) && request.GetSession() != nil && request.GetSession().GetSubject() == old(code_req[sig]).GetSession().GetSubject() && request.GetSession().GetUsername() == old(code_req[sig]).GetSession().GetUsername()
 //@   ensures [C02.failed-attempt-leaves-code] code_exists == old(code_exists) && code_active == old(code_active)
+//@   ensures [C18.code-handle-fault-refuses] faults != old(faults) ==> err != nil
 
 //@ func getExpiresIn
 //@   ensures [C07.expires-in-consistent] r.GetSession().GetExpiresAt(key) == 0 ==> result == defaultLifespan
@@ -168,7 +169,9 @@ package oauth2
 //@   modifies code_active, acc_exists, acc_rid, acc_client, acc_req, ref_exists, ref_active, ref_rid, ref_client, ref_acc, ref_req, ref_ever, stored, faults, tx_open, tx_begun, tx_committed, tx_rolledback, tx_commit_calls, tx_rollback_calls, snap_code_active, snap_acc_exists, snap_ref_exists, snap_ref_active, snap_dev_live, dev_live, validated_n, tx_escaped, tx_ctx
 //@   ensures [C18.writes-inside-tx] old(tx_open) == 0 ==> tx_escaped == old(tx_escaped)
 //@   ensures [C06.lookup-then-validate] err == nil ==> validated_n[code] > old(validated_n[code])
+//@   ensures [C02.populate-validates-code] err == nil ==> validated_n[code] > old(validated_n[code])
 //@   ensures [C01.redeem-needs-live-code] err == nil ==> old(code_exists[sig]) && old(code_active[sig])
+//@   ensures [C02.populate-needs-live-code] err == nil ==> old(code_exists[sig]) && old(code_active[sig])
 //@   ensures [C01.redeem-invalidates] err == nil ==> !code_active[sig]
 //@   ensures [C01.issued-with-request-id] err == nil ==> (forall s string :: acc_exists[s] && !old(acc_exists[s]) ==> acc_rid[s] == requester.GetID()) && (forall s string :: ref_exists[s] && !old(ref_exists[s]) ==> ref_rid[s] == requester.GetID())
 //@   ensures [C04.never-reactivates-a-used-token] (forall s string :: old(ref_ever[s]) ==> ref_ever[s]) && (forall s string :: old(ref_ever[s]) && !old(ref_exists[s] && ref_active[s]) ==> !(ref_exists[s] && ref_active[s]))
@@ -410,7 +413,9 @@ package oauth2
 //@   protects [C19.no-write-to-store-owned-session] shared
 //@   modifies faults, validated_n, accessRequest.GetID(), accessRequest.GetRequestedAt(), accessRequest.GetClient(), accessRequest.GetSession(), accessRequest.GetRequestedScopes(), accessRequest.GetGrantedScopes(), accessRequest.GetRequestedAudience(), accessRequest.GetGrantedAudience(), accessRequest.GetRequestForm()
 //@   ensures [C09.active-iff] err == nil ==> acc_exists[sig] && validated_n[token] > old(validated_n[token]) && (forall j int :: 0 <= j && j < len(scopes) ==> scopes[j] == "" || call(c.Config.GetScopeStrategy(ctx), acc_req[sig].GetGrantedScopes(), scopes[j]))
+//@   ensures [C06.introspection-validates-token] err == nil ==> acc_exists[sig] && validated_n[token] > old(validated_n[token]) && (forall j int :: 0 <= j && j < len(scopes) ==> scopes[j] == "" || call(c.Config.GetScopeStrategy(ctx), acc_req[sig].GetGrantedScopes(), scopes[j]))
 //@   ensures [C09.active-iff] !acc_exists[sig] ==> err != nil
+//@   ensures [C06.introspection-validates-token] !acc_exists[sig] ==> err != nil
 //@   ensures [C09.validated-monotone] forall t string :: validated_n[t] >= old(validated_n[t])
 //@   ensures [C09.reports-stored] err == nil ==> accessRequest.GetID() == acc_rid[sig] && accessRequest.GetClient() == acc_req[sig].GetClient() && accessRequest.GetClient().GetID() == acc_client[sig] && accessRequest.GetSession() == acc_req[sig].GetSession() && accessRequest.GetRequestedAt() == acc_req[sig].GetRequestedAt() && (forall x string :: insl(accessRequest.GetGrantedScopes(), x) <==> (insl(old(accessRequest.GetGrantedScopes()), x) || insl(acc_req[sig].GetGrantedScopes(), x))) && (forall x string :: insl(accessRequest.GetGrantedAudience(), x) <==> (insl(old(accessRequest.GetGrantedAudience()), x) || insl(acc_req[sig].GetGrantedAudience(), x)))
 //@   ensures [C09.refusal-leaves-request] err != nil ==> accessRequest.GetClient() == old(accessRequest.GetClient()) && accessRequest.GetSession() == old(accessRequest.GetSession()) && accessRequest.GetGrantedScopes() == old(accessRequest.GetGrantedScopes())
@@ -422,7 +427,9 @@ package oauth2
 //@   protects [C19.no-write-to-store-owned-session] shared
 //@   modifies faults, validated_n, accessRequest.GetID(), accessRequest.GetRequestedAt(), accessRequest.GetClient(), accessRequest.GetSession(), accessRequest.GetRequestedScopes(), accessRequest.GetGrantedScopes(), accessRequest.GetRequestedAudience(), accessRequest.GetGrantedAudience(), accessRequest.GetRequestForm()
 //@   ensures [C09.active-iff] err == nil ==> ref_exists[sig] && ref_active[sig] && validated_n[token] > old(validated_n[token]) && (forall j int :: 0 <= j && j < len(scopes) ==> scopes[j] == "" || call(c.Config.GetScopeStrategy(ctx), ref_req[sig].GetGrantedScopes(), scopes[j]))
+//@   ensures [C06.introspection-validates-token] err == nil ==> ref_exists[sig] && ref_active[sig] && validated_n[token] > old(validated_n[token]) && (forall j int :: 0 <= j && j < len(scopes) ==> scopes[j] == "" || call(c.Config.GetScopeStrategy(ctx), ref_req[sig].GetGrantedScopes(), scopes[j]))
 //@   ensures [C09.active-iff] !(ref_exists[sig] && ref_active[sig]) ==> err != nil
+//@   ensures [C06.introspection-validates-token] !(ref_exists[sig] && ref_active[sig]) ==> err != nil
 //@   ensures [C09.validated-monotone] forall t string :: validated_n[t] >= old(validated_n[t])
 //@   ensures [C09.reports-stored] err == nil ==> accessRequest.GetID() == ref_rid[sig] && accessRequest.GetClient() == ref_req[sig].GetClient() && accessRequest.GetClient().GetID() == ref_client[sig] && accessRequest.GetSession() == ref_req[sig].GetSession() && (forall x string :: insl(accessRequest.GetGrantedScopes(), x) <==> (insl(old(accessRequest.GetGrantedScopes()), x) || insl(ref_req[sig].GetGrantedScopes(), x)))
 //@   ensures [C09.refusal-leaves-request] err != nil ==> accessRequest.GetClient() == old(accessRequest.GetClient()) && accessRequest.GetSession() == old(accessRequest.GetSession()) && accessRequest.GetGrantedScopes() == old(accessRequest.GetGrantedScopes())
@@ -438,6 +445,7 @@ package oauth2
 //@   ensures [C09.kind-truthful] result1 == nil && result0 == fosite.RefreshToken ==> ref_exists[rsig] && ref_active[rsig] && accessRequest.GetClient().GetID() == ref_client[rsig] && accessRequest.GetID() == ref_rid[rsig] && !c.Config.GetDisableRefreshTokenValidation(ctx)
 //@   ensures [C09.active-iff] !acc_exists[asig] && !(ref_exists[rsig] && ref_active[rsig]) ==> result1 != nil
 //@   ensures [C09.validated] result1 == nil ==> validated_n[token] > old(validated_n[token])
+//@   ensures [C06.introspection-validates-token] result1 == nil ==> validated_n[token] > old(validated_n[token])
 //@   ensures [C09.inactive-result] result1 != nil ==> result0 == ""
 
 // ---- C13: the authorize endpoint handlers of this package ----
@@ -566,12 +574,14 @@ package oauth2
 //@   modifies anyheap, acc_exists, acc_rid, acc_client, acc_req, stored, faults, tx_escaped
 //@   ensures [C01.issue-touches-only-its-grant] request.GetID() == old(request.GetID()) && (forall s string :: acc_exists[s] ==> acc_rid[s] == request.GetID() || (old(acc_exists[s]) && acc_rid[s] == old(acc_rid[s])))
 //@   ensures [C10.client-credentials-needs-grant] err == nil ==> old(request.GetClient().GetGrantTypes()).Has("client_credentials")
+//@   ensures [C18.client-credentials-populate-fault-refuses] faults != old(faults) ==> err != nil
 //@ func (*ResourceOwnerPasswordCredentialsGrantHandler).PopulateTokenEndpointResponse
 //@   requires c != nil && c.HandleHelper != nil && requester != nil && responder != nil && requester.GetSession() != nil && requester.GetClient() != nil
 //@   modifies anyheap, acc_exists, acc_rid, acc_client, acc_req, ref_exists, ref_active, ref_rid, ref_client, ref_acc, ref_req, ref_ever, stored, faults, tx_escaped
 //@   ensures [C01.issue-touches-only-its-grant] requester.GetID() == old(requester.GetID()) && (forall s string :: acc_exists[s] ==> acc_rid[s] == requester.GetID() || (old(acc_exists[s]) && acc_rid[s] == old(acc_rid[s])))
 //@   ensures [C01.issue-touches-only-its-grant] forall s string :: ref_exists[s] && ref_active[s] ==> ref_rid[s] == requester.GetID() || (old(ref_exists[s]) && old(ref_active[s]) && ref_rid[s] == old(ref_rid[s]))
 //@   ensures [C04.never-reactivates-a-used-token] (forall s string :: old(ref_ever[s]) ==> ref_ever[s]) && (forall s string :: old(ref_ever[s]) && !old(ref_exists[s] && ref_active[s]) ==> !(ref_exists[s] && ref_active[s]))
+//@   ensures [C18.password-populate-fault-refuses] faults != old(faults) ==> err != nil
 
 // ---------------------------------------------------------------- history lemmas (ghost drivers in verif_history.go)
 // dead(sig): the code is used and no live token of its grant exists. A fault-free replay of a used code establishes it
